@@ -16,7 +16,7 @@ const std::vector<fk::Simplex>& star_of_origin(std::size_t d, vh::Case& c) {
   fk::Simplex o{Vertex(d, 0)};
   for (std::size_t l = 0; l <= d; ++l) fk::cofaces(o, l, all);
   fk::star_of_origin_by_permutations(d, alt);
-  c.expect(all == alt, "oracle.selfcheck", "star_two_definitions", "chain enumeration " + vh::str(all.size()) + " vs permutation enumeration " + vh::str(alt.size()));
+  C20_EXPECT(c, all == alt, "oracle.selfcheck", "star_two_definitions", "chain enumeration " + vh::str(all.size()) + " vs permutation enumeration " + vh::str(alt.size()));
   auto& v = cache[d];
   v.assign(all.begin(), all.end());
   return v;
